@@ -283,8 +283,15 @@ func (d *tmDriver) settle() {
 }
 
 func (d *tmDriver) poll() {
+	t0 := time.Now()
 	n, err := d.ioc.PollOne()
 	d.x.Note("poll -> %d %v", n, err)
+	// PollOne does not wait: every handler of this scenario returns at once, so a poll that takes seconds was put to
+	// sleep inside the library (a timer descriptor read that blocks until the NEXT expiry, say). The threshold is half
+	// the long delay the scenarios use; nothing here takes a thousandth of that.
+	if el := time.Since(t0); el > tLong/2 {
+		d.x.Fail("timer/poll-blocked", "a non-blocking PollOne took %v", el)
+	}
 }
 
 func c04Body(depth int) func(x *engine.X) {
